@@ -19,9 +19,13 @@ import (
 // buildSUT builds a provider with every optional storage capability (extras: incl. the third-party token verifier).
 // The vkit store is diligent about the one thing the framework delegates to ValidateTokenExchangeRequest: the liveness
 // of access tokens presented as subject / actor (TEPolicy.NoLivenessCheck switches that off).
-func buildSUT(router, issuer string, cryptoKey byte, st *vkit.Store, extras bool) *vkit.SUT {
+func buildSUT(router, issuer string, cryptoKey byte, st *vkit.Store, extras, hosts bool) *vkit.SUT {
 	spec := vkit.DefaultProviderSpec(router)
 	spec.Issuer = issuer
+	if hosts {
+		// the issuer is derived from the Host header of each request: "https://" + host
+		spec.IssuerMode, spec.Issuer = "host", ""
+	}
 	spec.CryptoKey = cryptoKey
 	spec.Caps = vkit.Caps{CC: true, TE: true, Device: true, Extras: extras}
 	return vkit.MustBuild(spec, st)
@@ -196,7 +200,7 @@ func mint(ag *vkit.Agent, cl *vkit.ClientSpec, user string, jwtAT bool) *minted 
 		return m
 	}
 	before := tokenIDs(ag.S.Store)
-	r := ag.Token(vkit.CodeExchangeForm(f.Code, redirectURI, pkceVerifier), vkit.RightCred(cl, ag.S.Issuer()))
+	r := ag.Token(vkit.CodeExchangeForm(f.Code, redirectURI, pkceVerifier), vkit.RightCred(cl, ag.S.IssuerFor(ag.Host)))
 	if !r.Success() {
 		m.Err = "code exchange: " + r.Describe()
 		return m
